@@ -228,10 +228,10 @@ import c05 as _c05
 PROPS['C05']['extra'] = _c05.float_delay
 PROPS['C05']['tags']['d'] = lambda l: _c.fields('buf', 'lvl')(l) if ' buffer ' in l else None
 PROPS['C08'] = floor_prop(
-    'C08', ['SimProc.Props.C08', 'SimProc.Props.C08W'], ['SimProc/Props/C08.lean', 'SimProc/Props/C08W.lean'],
+    'C08', ['SimProc.Props.C08', 'SimProc.Props.C08W', 'SimProc.Props.C08S'], ['SimProc/Props/C08.lean', 'SimProc/Props/C08W.lean', 'SimProc/Props/C08S.lean'],
     {'p': _c.fields('hist', 'stack', 'kids'), 'd': _c.fields('coll', 'blk'), 'rec': _c.only(('received_part',))},
     ('rec received_part',), 'non-trivial = a part was handed over',
-    families=[('floor', 100, 2000), ('floorc', 50, 1000), ('floors', 100, 2000), ('floorg', 80, 1500), ('floorb', 40, 800)])
+    families=[('floor', 100, 2000), ('floorc', 50, 1000), ('floors', 100, 2000), ('floorg', 80, 1500), ('floorb', 40, 800), ('floori', 80, 1500)])
 PROPS['C11'] = floor_prop(
     'C11', ['SimProc.Props.C11', 'SimProc.Props.C11W'], ['SimProc/Props/C11.lean', 'SimProc/Props/C11W.lean'],
     {'d': _c.fields('part', 'resv', 'wres', 'down'), 'r': None, 'rec': _c.only(('resource_update',))},
